@@ -30,7 +30,7 @@ RULE = ("history = N in 1..8 requests (GET/POST/PUT/PATCH/DELETE/OPTIONS, none|b
         "= N >= 2 with at least one response without a length after the first response or mixed shapes")
 META = {"engine": "D+E io/http", "technique": "history checking with unique ids, independent wire re-parse, schedule fuzzing",
         "level_text": "exploration: sampled sequences and schedules; every shape as first and as later response floor-counted",
-        "level_note": "HEAD and 204/304/1xx are not generated (no-body semantics belong to the application); "
+        "level_note": "HEAD and 204/304 are generated with applications that produce no body (no-body semantics belong to the application), 1xx are not; "
                       "liveness is bounded progress in service calls, the wall clock only yields inconclusive"}
 
 SHAPES = ("fixed", "fixed-pieces", "stream", "stream-gaps", "empty", "empty-cl0", "genreturn", "write")
@@ -77,6 +77,7 @@ def one_case(ctx, rng, idx, mem, deadline):
     tag = "k%d-%d" % (ctx.job["index"] if ctx.job else 0, idx)
     n = rng.choice([1, 2, 2, 3, 3, 4, 5, 6, 8])
     reqs, specs = [], {}
+    bodiless = False
     for i in range(n + 1):               # the last one is the probe
         rid = "%s-%d" % (tag, i)
         rq = hg.gen_request(rng, rid, methods=METHODS)
@@ -85,6 +86,20 @@ def one_case(ctx, rng, idx, mem, deadline):
             rq.pop("fargs", None)
             rq["headers"] = [h for h in rq["headers"] if h[0].lower() != "content-type"]
         reqs.append(rq)
+        if i < n and rng.random() < 0.12:
+            # a response that has no body by definition (to a HEAD request, or 204 / 304): the application produces none,
+            # with or without a Content-Length; the next response on the connection must still be found
+            if rng.random() < 0.5:
+                rq["method"] = "HEAD"
+                rq["kind"] = "none"
+                rq.pop("body", None)
+                rq.pop("data", None)
+                rq["headers"] = [h for h in rq["headers"] if h[0].lower() != "content-type"]
+                specs[rid] = hg.gen_appspec(rng, rid, shapes=("empty", "empty-cl0"), statuses=[200, 404])
+            else:
+                specs[rid] = hg.gen_appspec(rng, rid, shapes=("empty", "empty-cl0"), statuses=[204, 304])
+            bodiless = True
+            continue
         specs[rid] = hg.gen_appspec(rng, rid, shapes=SHAPES, statuses=[200, 201, 202, 203, 206, 400, 404, 500])
     shapes = [specs[r["id"]]["shape"] for r in reqs]
     seen = []
@@ -281,6 +296,8 @@ def one_case(ctx, rng, idx, mem, deadline):
         ctx.case((reqs, shapes, schedseed, mem, upfront), nontrivial=(n >= 2 and (nolen_later or len(set(shapes[:n])) > 1)))
         ctx.hit("transport:" + ("memory" if mem else "loopback"))
         ctx.hit("n:%d" % n)
+        if bodiless:
+            ctx.hit("sequences_with_bodiless_response")
         for i, s in enumerate(shapes[:n]):
             ctx.hit("shape:%s:%s" % (s, "first" if i == 0 else "later"))
         if mem:
@@ -327,3 +344,4 @@ def run(ctx):
         ctx.floor("shape:%s:first" % sh, total // 30)
         ctx.floor("shape:%s:later" % sh, total // 10)
     ctx.floor("n:8", total // 30)
+    ctx.floor("sequences_with_bodiless_response", total // 10)
